@@ -294,6 +294,7 @@ const (
 	BoolFalse                    // result Idx may be false
 	AnyReturn                    // any normal return
 	NonNil                       // result Idx (pointer/slice/interface) may be non-nil
+	NoExit                       // no return counts as an exit (only stop blocks matter)
 )
 
 type Outcome struct {
@@ -311,6 +312,8 @@ func (o Outcome) String() string {
 		return fmt.Sprintf("ret[%d]==false", o.Idx)
 	case NonNil:
 		return fmt.Sprintf("ret[%d]!=nil", o.Idx)
+	case NoExit:
+		return "<no exit>"
 	}
 	return "return"
 }
@@ -797,6 +800,9 @@ func (c *Ctx) exitMaySucceedWithout(fn *ssa.Function, r *ssa.Return, pred int, o
 	if o.Kind == AnyReturn {
 		return true
 	}
+	if o.Kind == NoExit {
+		return false
+	}
 	if o.Idx >= len(r.Results) {
 		return true
 	}
@@ -1261,4 +1267,33 @@ func (c *Ctx) callBool(call *ssa.Call, depth int) (bool, bool) {
 		}
 	}
 	return val, have
+}
+
+// ReachableBlocks: blocks reachable from the entry under the assumptions.
+func (c *Ctx) ReachableBlocks(fn *ssa.Function) []*ssa.BasicBlock {
+	seen := map[*ssa.BasicBlock]bool{fn.Blocks[0]: true}
+	stack := []*ssa.BasicBlock{fn.Blocks[0]}
+	var out []*ssa.BasicBlock
+	for len(stack) > 0 {
+		b := stack[len(stack)-1]
+		stack = stack[:len(stack)-1]
+		out = append(out, b)
+		succs := b.Succs
+		if ifi, ok := b.Instrs[len(b.Instrs)-1].(*ssa.If); ok {
+			if v, known := c.fold(ifi.Cond); known {
+				if v {
+					succs = b.Succs[:1]
+				} else {
+					succs = b.Succs[1:]
+				}
+			}
+		}
+		for _, s := range succs {
+			if !seen[s] {
+				seen[s] = true
+				stack = append(stack, s)
+			}
+		}
+	}
+	return out
 }
